@@ -1,6 +1,7 @@
 import Lean.Data.Json
 import RaftVerif.Model.Repl
 import RaftVerif.Model.ReplProbe
+import RaftVerif.Model.Timing
 import Driver.Node
 open Lean Raft
 
@@ -32,6 +33,10 @@ def runJson (r : Repl.PR) : Json :=
 
 def handleE (j : Json) : Except String Json := do
   let what ← j.getObjValAs? String "what"
+  if what == "backOff" then
+    let round ← j.getObjValAs? Nat "round"
+    let max ← j.getObjValAs? Nat "max"
+    return Json.mkObj [("backOff", toJson (Timing.backOff round max))]
   let st ← j.getObjValAs? Repl.State "st"
   match what with
   | "writeAppend" => do
